@@ -470,6 +470,9 @@ class Real:
                     self.trace.append(('exit', t))
         except self.asyncio.CancelledError:
             self.trace.append(('cancelled', t))
+        except RuntimeError as exc:
+            # asyncio.Lock.release() of an unlocked lock
+            self.bad = 'task %d: RuntimeError: %s' % (t, exc)
 
     def act(self, a):
         if a[0] == 'start':
